@@ -25,6 +25,7 @@ import (
 	"strings"
 	"sync"
 	"syscall"
+	"testing/synctest"
 	"time"
 
 	_ "golang.org/x/crypto/sha3"
@@ -271,6 +272,12 @@ func (n *verifNet) checkTarget(where string) {
 	}
 }
 
+// wait lets d of simulated time pass unless ctx ends first. Two timers of the
+// bubble that expire at the same simulated instant (this one and the
+// deadline of ctx, say) are delivered in an order the tape does not control,
+// so: all simulated durations of the engine are chosen with odd residues that
+// make such coincidences practically impossible, and after waking up the
+// other goroutines are allowed to settle and ctx wins.
 func (n *verifNet) wait(ctx context.Context, d time.Duration) error {
 	if d <= 0 {
 		return ctx.Err()
@@ -278,11 +285,11 @@ func (n *verifNet) wait(ctx context.Context, d time.Duration) error {
 	t := time.NewTimer(d)
 	select {
 	case <-t.C:
-		return nil
 	case <-ctx.Done():
-		t.Stop()
-		return ctx.Err()
 	}
+	t.Stop()
+	synctest.Wait()
+	return ctx.Err()
 }
 
 func (n *verifNet) drawFaults() []string {
@@ -438,7 +445,7 @@ func (n *verifNet) serve(req *http.Request, faults []string, psize int64) (*http
 			return nil, &net.OpError{Op: "read", Net: "tcp", Err: &os.SyscallError{Syscall: "read", Err: syscall.ECONNRESET}}
 		case "req-timeout":
 			n.fire(f)
-			d := []time.Duration{0, 10 * time.Second, 75 * time.Second}[c.Draw("req-timeout-after", 3)]
+			d := []time.Duration{0, 10300 * time.Millisecond, 75100 * time.Millisecond}[c.Draw("req-timeout-after", 3)]
 			c.Logf("%s no response, times out after %v", pfx, d)
 			if err := n.wait(req.Context(), d); err != nil {
 				return nil, err
@@ -559,7 +566,7 @@ func (n *verifNet) serve(req *http.Request, faults []string, psize int64) (*http
 	}
 	if has("stall") {
 		body.stallAt = c.Draw("stall-at", len(data)+1)
-		body.stallDur = []time.Duration{20 * time.Second, 100 * time.Second, 301 * time.Second, 11 * time.Minute}[c.Draw("stall-for", 4)]
+		body.stallDur = []time.Duration{20100 * time.Millisecond, 100300 * time.Millisecond, 301700 * time.Millisecond, 660900 * time.Millisecond}[c.Draw("stall-for", 4)]
 		desc += fmt.Sprintf(", stalls %v after %d bytes", body.stallDur, body.stallAt)
 	}
 	switch c.Draw("chunk", 4) {
@@ -578,7 +585,7 @@ func (n *verifNet) serve(req *http.Request, faults []string, psize int64) (*http
 		body.chunk = floor
 	}
 	if has("drip") {
-		body.drip = []time.Duration{time.Second, 40 * time.Second}[c.Draw("drip-delay", 2)]
+		body.drip = []time.Duration{1003 * time.Millisecond, 40700 * time.Millisecond}[c.Draw("drip-delay", 2)]
 		if len(data) > 40 {
 			body.chunk = verifMin(body.chunk, 1+len(data)/(4+c.Draw("drip-reads", 40)))
 		}
@@ -849,7 +856,7 @@ func verifRunC31(c *verifsim.Ctx) {
 		cancel := func() {}
 		ctxDesc := "background"
 		if c.Draw("caller-cancels", 8) == 7 {
-			d := []time.Duration{0, 300 * time.Millisecond, 5 * time.Second, 40 * time.Second, 250 * time.Second}[c.Draw("cancel-after", 5)]
+			d := []time.Duration{0, 300700*time.Microsecond + 137, 5300*time.Millisecond + 137, 40900*time.Millisecond + 137, 250300*time.Millisecond + 137}[c.Draw("cancel-after", 5)]
 			if d == 0 {
 				ctx, cancel = context.WithCancel(ctx)
 				cancel()
